@@ -3,5 +3,11 @@
 set -e
 cd "$(dirname "$0")"
 export CARGO_NET_OFFLINE=true
-(cd lean && lake build)
+DRIVERS=$(python3 -c "
+import json,glob
+ex=set()
+for f in glob.glob('checks/C*.json'):
+    for d in json.load(open(f)).get('drivers',[]): ex.add(d['exe'])
+print(' '.join(sorted(ex)))")
+(cd lean && lake build DropshotModel DropshotProofs $DRIVERS)
 (cd harness && cargo build --offline --bins)
